@@ -65,21 +65,66 @@ func c16Run(r *Run) {
 			return true
 		})
 	}
-	if lit == nil {
-		r.fail("specialHandlers map literal not found in cmd/compile")
-		return
-	}
 	declOf := map[types.Object]*ast.FuncDecl{}
 	for _, fd := range funcDecls(cp) {
 		declOf[info.Defs[fd.Name]] = fd
 	}
 	type entry struct {
-		t   *types.Named
-		h   *ast.FuncDecl
-		pos token.Pos
+		t     *types.Named
+		h     *ast.FuncDecl
+		pos   token.Pos
+		typed types.Object // handler of the typed form func(g, n *T) error: the node parameter itself
 	}
 	var entries []entry
-	for _, el := range lit.Elts {
+	if lit == nil {
+		// registration form: a call with one argument, a handler func(g *Generator, n *T) error
+		for _, fd := range funcDecls(cp) {
+			ast.Inspect(fd.Body, func(n ast.Node) bool {
+				c, ok := n.(*ast.CallExpr)
+				if !ok || len(c.Args) != 1 {
+					return true
+				}
+				id, ok := ast.Unparen(c.Args[0]).(*ast.Ident)
+				if !ok {
+					return true
+				}
+				hd := declOf[info.Uses[id]]
+				if hd == nil || hd.Recv != nil || hd.Type.Params.NumFields() != 2 || hd.Type.Results == nil || hd.Type.Results.NumFields() != 1 {
+					return true
+				}
+				var params []*ast.Ident
+				for _, f := range hd.Type.Params.List {
+					params = append(params, f.Names...)
+				}
+				if len(params) != 2 {
+					return true
+				}
+				p0, ok0 := info.TypeOf(hd.Type.Params.List[0].Type).(*types.Pointer)
+				if !ok0 || !isNamed(p0.Elem(), modPath+"/cmd/compile", "Generator") {
+					return true
+				}
+				pt, ok1 := info.Defs[params[1]].Type().(*types.Pointer)
+				if !ok1 {
+					return true
+				}
+				nt := namedOf(pt.Elem())
+				if nt == nil {
+					return true
+				}
+				entries = append(entries, entry{nt, hd, c.Pos(), info.Defs[params[1]]})
+				return true
+			})
+		}
+		if len(entries) == 0 {
+			r.curRule = "C16-HANDLER"
+			r.fail("the special-handler table was found neither as the specialHandlers map literal nor as registration calls of typed handlers")
+		}
+	}
+	var elts []ast.Expr
+	if lit != nil {
+		elts = lit.Elts
+	}
+	for _, el := range elts {
 		kv, ok := el.(*ast.KeyValueExpr)
 		if !ok {
 			continue
@@ -104,7 +149,7 @@ func c16Run(r *Run) {
 			r.fail("specialHandlers entry at %s cannot be resolved to (type, handler)", r.pos(kv.Pos()))
 			continue
 		}
-		entries = append(entries, entry{nt, hd, kv.Pos()})
+		entries = append(entries, entry{nt, hd, kv.Pos(), nil})
 	}
 	// paramReads: fields of the first node-typed parameter read by helper functions (one level)
 	var readsOfDepth func(fd *ast.FuncDecl, obj types.Object, depth int) (map[string]bool, bool)
@@ -218,7 +263,14 @@ func c16Run(r *Run) {
 		r.curRule = "C16-TABLE"
 		var nodeVar types.Object
 		asserted := ""
+		if e.typed != nil {
+			nodeVar = e.typed
+			asserted = tn // the parameter type is the registration key
+		}
 		ast.Inspect(e.h.Body, func(n ast.Node) bool {
+			if e.typed != nil {
+				return false
+			}
 			as, ok := n.(*ast.AssignStmt)
 			if !ok || len(as.Rhs) != 1 {
 				return true
@@ -330,51 +382,69 @@ func c16Run(r *Run) {
 	if fd := findFunc(cp, "", "augmentProgramASTFromBase"); fd == nil {
 		r.fail("anchor not found: cmd/compile.augmentProgramASTFromBase")
 	} else {
-		// (a) classes attached outside a namespace-only loop
-		var collected types.Object
-		ast.Inspect(fd.Body, func(n ast.Node) bool {
-			if ds, ok := n.(*ast.DeclStmt); ok {
-				if gd, ok := ds.Decl.(*ast.GenDecl); ok {
-					for _, sp := range gd.Specs {
-						if vs, ok := sp.(*ast.ValueSpec); ok && len(vs.Names) == 1 && collected == nil {
-							if sl, ok := info.TypeOf(vs.Type).(*types.Slice); ok && isNamed(sl.Elem(), modPath+"/data", "GetValue") {
-								collected = info.Defs[vs.Names[0]]
-							}
+		// (a) classes attached outside a namespace-only loop — looked for in the function and in the
+		// package helpers it calls
+		var closure []*ast.FuncDecl
+		{
+			seen := map[*ast.FuncDecl]bool{fd: true}
+			closure = append(closure, fd)
+			for i := 0; i < len(closure); i++ {
+				ast.Inspect(closure[i].Body, func(n ast.Node) bool {
+					if c, ok := n.(*ast.CallExpr); ok {
+						if h := declOf[calleeOf(info, c)]; h != nil && !seen[h] {
+							seen[h] = true
+							closure = append(closure, h)
 						}
 					}
-				}
+					return true
+				})
 			}
-			return true
-		})
+		}
 		key := funcKey(cp, fd) + "#classes-of-files-without-namespace"
-		if collected == nil {
-			r.fail("augmentProgramASTFromBase: collected class list not found")
-		} else {
-			uses, nsOnly := 0, 0
-			var visit func(n ast.Node, inNsLoop bool)
-			visit = func(n ast.Node, inNsLoop bool) {
+		uses, nsOnly := 0, 0
+		isNodeList := func(e ast.Expr) bool {
+			id, ok := ast.Unparen(e).(*ast.Ident)
+			if !ok {
+				return false
+			}
+			v, ok := info.Uses[id].(*types.Var)
+			if !ok {
+				return false
+			}
+			sl, ok := v.Type().(*types.Slice)
+			return ok && isNamed(sl.Elem(), modPath+"/data", "GetValue")
+		}
+		for _, cf := range closure {
+			var visit func(n ast.Node, inNs bool)
+			nsGuard := func(n ast.Node) bool {
+				guard := false
+				ast.Inspect(n, func(k ast.Node) bool {
+					if ta, ok := k.(*ast.TypeAssertExpr); ok && ta.Type != nil {
+						if pt, ok := info.TypeOf(ta.Type).(*types.Pointer); ok && isNamed(pt.Elem(), modPath+"/node", "Namespace") {
+							guard = true
+						}
+					}
+					return true
+				})
+				return guard
+			}
+			visit = func(n ast.Node, inNs bool) {
 				ast.Inspect(n, func(m ast.Node) bool {
 					if m == n {
 						return true
 					}
 					switch x := m.(type) {
 					case *ast.RangeStmt:
-						guard := false
-						ast.Inspect(x.Body, func(k ast.Node) bool {
-							if ta, ok := k.(*ast.TypeAssertExpr); ok && ta.Type != nil {
-								if pt, ok := info.TypeOf(ta.Type).(*types.Pointer); ok && isNamed(pt.Elem(), modPath+"/node", "Namespace") {
-									guard = true
-								}
-							}
-							return true
-						})
-						visit(x.Body, inNsLoop || guard)
+						visit(x.Body, inNs || nsGuard(x.Body))
+						return false
+					case *ast.ForStmt:
+						visit(x.Body, inNs || nsGuard(x.Body))
 						return false
 					case *ast.CallExpr:
-						if x.Ellipsis.IsValid() && len(x.Args) > 0 {
-							if id, ok := ast.Unparen(x.Args[len(x.Args)-1]).(*ast.Ident); ok && info.Uses[id] == collected {
+						if x.Ellipsis.IsValid() && len(x.Args) > 0 && isNodeList(x.Args[len(x.Args)-1]) {
+							if id, ok := ast.Unparen(x.Fun).(*ast.Ident); ok && id.Name == "append" {
 								uses++
-								if inNsLoop {
+								if inNs {
 									nsOnly++
 								}
 							}
@@ -383,15 +453,15 @@ func c16Run(r *Run) {
 					return true
 				})
 			}
-			visit(fd.Body, false)
-			switch {
-			case uses == 0:
-				r.bad(key, fd.Pos(), "the classes registered by the parser are collected but never attached to the program")
-			case uses == nsOnly:
-				r.bad(key, fd.Pos(), "the classes registered by the parser are attached only inside Namespace statements: a file that declares classes without a namespace loses them in the compiled program")
-			default:
-				r.ok(key, fd.Pos(), "classes are attached for files with and without a namespace statement")
-			}
+			visit(cf.Body, false)
+		}
+		switch {
+		case uses == 0:
+			r.bad(key, fd.Pos(), "the classes registered by the parser are collected but never attached to the program")
+		case uses == nsOnly:
+			r.bad(key, fd.Pos(), "the classes registered by the parser are attached only inside Namespace statements: a file that declares classes without a namespace loses them in the compiled program")
+		default:
+			r.ok(key, fd.Pos(), "classes are attached for files with and without a namespace statement")
 		}
 		// (b) interfaces
 		key = funcKey(cp, fd) + "#interfaces"
@@ -496,12 +566,45 @@ func c16Run(r *Run) {
 	if fd := findFunc(cp, "Generator", "Emit"); fd == nil {
 		r.fail("anchor not found: (*Generator).Emit")
 	} else {
+		// Emit may answer nil only for a nil node or after one of its routes answered nil; every other
+		// way out is the error of a route or newEmitError
 		key := funcKey(cp, fd) + "#ends-in-error"
-		last := fd.Body.List[len(fd.Body.List)-1]
-		if rs, ok := last.(*ast.ReturnStmt); ok && len(rs.Results) == 1 && nonNil(rs.Results[0]) {
-			r.ok(key, rs.Pos(), "a node with no route ends in an error")
+		type st struct{ okPath bool }
+		var badPos token.Pos
+		h := &Hooks{Info: info}
+		h.Copy = func(s State) State { c := *s.(*st); return &c }
+		h.Join = func(a, b State) State { return &st{a.(*st).okPath && b.(*st).okPath} }
+		h.Equal = func(a, b State) bool { return *a.(*st) == *b.(*st) }
+		h.Cond = func(e ast.Expr, truth bool, s State) State {
+			be, ok := ast.Unparen(e).(*ast.BinaryExpr)
+			if !ok || exprStr(be.Y) != "nil" {
+				return s
+			}
+			isNil := (be.Op == token.EQL && truth) || (be.Op == token.NEQ && !truth)
+			if !isNil {
+				return s
+			}
+			if id, ok := ast.Unparen(be.X).(*ast.Ident); ok {
+				if v, ok := info.Uses[id].(*types.Var); ok {
+					// the node parameter is nil, or the error of a route is nil
+					if v.Type().String() == "error" || isNamed(v.Type(), modPath+"/data", "GetValue") {
+						s.(*st).okPath = true
+					}
+				}
+			}
+			return s
+		}
+		h.Return = func(rs *ast.ReturnStmt, s State) {
+			if len(rs.Results) == 1 && exprStr(rs.Results[0]) == "nil" && !s.(*st).okPath && !badPos.IsValid() {
+				badPos = rs.Pos()
+			}
+		}
+		h.End = func(s State) {}
+		WalkFunc(h, fd.Body, &st{})
+		if !badPos.IsValid() {
+			r.ok(key, fd.Pos(), "Emit answers nil only for a nil node or after a route succeeded; a node with no route ends in an error")
 		} else {
-			r.bad(key, last.Pos(), "Emit can fall off its routes without an error: an untranslatable node is dropped silently")
+			r.bad(key, badPos, "Emit can answer nil without any route having succeeded: an untranslatable node is dropped silently")
 		}
 	}
 	for _, fn := range []string{"emitStructLiteral", "emitStructValue"} {
